@@ -278,12 +278,14 @@ class MultiTanProcessor(object):
         # Start up the workers
 
         done_event = mp.Event()
+        error_event = mp.Event()
         queue = mp.Queue(maxsize=2 * parallel)
         workers = []
 
         for _ in range(parallel):
             w = mp.Process(
-                target=_mp_tile_worker, args=(queue, done_event, pio, kwargs)
+                target=_mp_tile_worker,
+                args=(queue, done_event, error_event, pio, kwargs),
             )
             w.daemon = True
             w.start()
@@ -305,8 +307,12 @@ class MultiTanProcessor(object):
         for w in workers:
             w.join()
 
+        from .par_util import raise_if_worker_failed
 
-def _mp_tile_worker(queue, done_event, pio, _kwargs):
+        raise_if_worker_failed(error_event)
+
+
+def _mp_tile_worker(queue, done_event, error_event, pio, _kwargs):
     """
     Generate and enqueue the tiles that need to be processed.
     """
@@ -332,28 +338,36 @@ def _mp_tile_worker(queue, done_event, pio, _kwargs):
                 break
             continue
 
-        if image.get_parity_sign() != tile_parity_sign:
-            image.flip_parity()
+        # Keep draining the queue if processing fails, so that the producer is
+        # never left blocked; the parent raises after joining the workers.
+        try:
+            if image.get_parity_sign() != tile_parity_sign:
+                image.flip_parity()
 
-        for (
-            pos,
-            width,
-            height,
-            image_x,
-            image_y,
-            tile_x,
-            tile_y,
-        ) in desc.sub_tiling.generate_populated_positions():
-            if tile_parity_sign == 1:
-                image_y = image.height - (image_y + height)
-                tile_y = 256 - (tile_y + height)
+            for (
+                pos,
+                width,
+                height,
+                image_x,
+                image_y,
+                tile_x,
+                tile_y,
+            ) in desc.sub_tiling.generate_populated_positions():
+                if tile_parity_sign == 1:
+                    image_y = image.height - (image_y + height)
+                    tile_y = 256 - (tile_y + height)
 
-            ix_idx = slice(image_x, image_x + width)
-            bx_idx = slice(tile_x, tile_x + width)
-            iy_idx = slice(image_y, image_y + height)
-            by_idx = slice(tile_y, tile_y + height)
+                ix_idx = slice(image_x, image_x + width)
+                bx_idx = slice(tile_x, tile_x + width)
+                iy_idx = slice(image_y, image_y + height)
+                by_idx = slice(tile_y, tile_y + height)
 
-            with pio.update_image(
-                pos, masked_mode=image.mode, default="masked"
-            ) as basis:
-                image.update_into_maskable_buffer(basis, iy_idx, ix_idx, by_idx, bx_idx)
+                with pio.update_image(
+                    pos, masked_mode=image.mode, default="masked"
+                ) as basis:
+                    image.update_into_maskable_buffer(basis, iy_idx, ix_idx, by_idx, bx_idx)
+        except Exception:
+            import traceback
+
+            traceback.print_exc()
+            error_event.set()
